@@ -388,10 +388,9 @@ func RefNBT(b []byte, pos int, tag byte, depth int) (status, end int) {
 		if n == 0 {
 			return NBTComplete, pos
 		}
-		if et == 0 {
-			return NBTOther, pos
-		}
-		if et > 12 {
+		if et == 0 || et > 12 {
+			// TAG_End is not the type of any value: a non-empty list of it is
+			// as ill-formed as a list of an unknown id
 			return NBTBadTag, pos
 		}
 		for i := 0; i < n; i++ {
